@@ -139,6 +139,13 @@ def role_script(prefix, fport, lport, with_roles):
     S.append(txt(1, lock_args("UNLOCK", prefix, "kb", "b1")))
     S.append(txt(1, lock_args("LOCK", prefix, "kb", "b2", eflag=Z)))
     S.append(blk(0, "lock", prefix, 6, "kc", "x1"))                       # replicated hold of connection 2: LOCKED_ERROR
+    # the old leader still believes it leads: it grants and PERSISTS one more hold, which the promoted node never receives.
+    # Its log has now diverged, so its demotion below ends in a full re-sync ("Replication flush all DB") and every holder
+    # of the old leader is told EXPRIED -- deterministically.
+    # (several: the promoted node numbers its own records from the same position, an id that merely collides would still be
+    # accepted for an incremental sync)
+    for j in range(8):
+        S.append(blk(2, "lock", prefix, 10 + j, "ke%d" % j, "e%d" % j, eflag=Z))
     S.append({"c": -1, "op": "sleep", "ms": 300})
     # 3. the old leader is demoted between two requests of connections 2 and 3 (it now follows the promoted node)
     S.append(txt(5, ["SLAVEOF", "127.0.0.1", str(fport)]) if with_roles else {"c": -1, "op": "sleep", "ms": 5})
@@ -189,10 +196,27 @@ def role_scenario(cl, pref_ref, pref_role):
     diffs = monitor.compare(info_ref, out_ref, pref_ref, info_role, out_role, pref_role)
     admin = [(i, out_role["steps"][i].get("reply")) for i, st in enumerate(role["steps"]) if st.get("op") == "text" and st["args"][0] == "SLAVEOF"]
     second = admin[1][0] if len(admin) > 1 else len(role["steps"])
+    # The demoted old leader re-syncs from the promoted node; when its own log has records the promoted node never
+    # received (anything persisted after the promotion, e.g. a hold reaching its AOF time) the sync is a FULL one:
+    # "Replication flush all DB" -- every holder of the old leader is told EXPRIED (result 9).  One of these notices
+    # reaches the client of connection 0 through the promoted node's still open forwarding link.  By design, timing
+    # dependent (incremental sync: no notices), so: unsolicited result-9 frames after the demotion are not differences.
+    t_demote = out_role["steps"][second]["sent_ms"] if second < len(role["steps"]) else float("inf")
+    notices = []
+    for d in diffs:
+        if d["kind"] == "extras" and not d["leader"]:
+            keep = []
+            for e in d["follower"]:
+                if isinstance(e["frame"], dict) and e["frame"].get("result") == 9 and e["at_ms"] >= t_demote:
+                    notices.append({"c": e["c"], "at_ms": e["at_ms"], "lockid": e["frame"].get("lockid")})
+                else:
+                    keep.append(e)
+            d["follower"] = keep
+    diffs = [d for d in diffs if not (d["kind"] == "extras" and not d["leader"] and not d["follower"])]
     strict = [d for d in diffs if d["kind"] != "reply" or d["i"] < second]
     loose = [d for d in diffs if d["kind"] == "reply" and d["i"] >= second and not is_refusal(d["follower"])]
     refused = [d["i"] for d in diffs if d["kind"] == "reply" and d["i"] >= second and is_refusal(d["follower"])]
-    return {"diffs": diffs, "strict_diffs": strict, "loose_diffs": loose, "refused_after_demotion": refused, "admin": admin, "ref": out_ref, "role": out_role, "script": role, "info": info_role,
+    return {"diffs": diffs, "strict_diffs": strict, "loose_diffs": loose, "refused_after_demotion": refused, "admin": admin, "flush_notices": notices, "ref": out_ref, "role": out_role, "script": role, "info": info_role,
             "unanswered": monitor.unanswered(info_role, out_role), "echo": monitor.echo_issues(info_role, out_role)}
 
 
